@@ -4,9 +4,12 @@ import (
 	"encoding/json"
 	"fmt"
 	"os"
+	"runtime"
+	"strings"
 
 	"github.com/olric-data/olric/internal/verif/clustermc"
 	"github.com/olric-data/olric/internal/verif/core"
+	"github.com/olric-data/olric/internal/verif/schedmc"
 )
 
 // dbg: run the events of one spec one by one from the initial state, printing progress
@@ -122,6 +125,38 @@ func init() {
 		}
 		for _, o := range r.out {
 			fmt.Println("FAIL", o.Key, "::", o.What)
+		}
+		c.Cov["explanation"] = "debug"
+	}})
+}
+
+// dbgsched: run the default schedule of the programs of a schedmc family whose name contains
+// DBG_MATCH and print history and verdict.
+func init() {
+	core.Register(&core.Check{ID: "dbgsched", Level: "other", Run: func(c *core.Ctx) {
+		for i, p := range schedmc.Families[os.Getenv("DBG_FAMILY")](c.Tier) {
+			if !strings.Contains(p.Name, os.Getenv("DBG_MATCH")) {
+				continue
+			}
+			k, w, h, x := schedmc.Replay(p, nil)
+			fmt.Printf("#%d %s\n   hist: %s\n   verdict: %q %s (points %d)\n", i, p.Name, h, k, w, len(x.Points))
+			if os.Getenv("DBG_LEAK") != "" {
+				g0 := runtime.NumGoroutine()
+				st := schedmc.Explore(p, 3, 0, 1, 3000)
+				fmt.Printf("   explored %d executions, capped=%v, violations %d\n", st.Execs, st.Capped, len(st.Violations))
+				for _, v := range st.Violations {
+					fmt.Printf("   VIOL %s: %s\n      hist %s\n      choices %v\n", v.Key, v.What, v.Hist, v.Choices)
+				}
+				runtime.GC()
+				var ms runtime.MemStats
+				runtime.ReadMemStats(&ms)
+				fmt.Printf("   goroutines before %d, after 50 more executions %d; heap %d MB\n", g0, runtime.NumGoroutine(), ms.HeapAlloc>>20)
+				if os.Getenv("DBG_LEAK") == "stacks" {
+					buf := make([]byte, 1<<20)
+					n := runtime.Stack(buf, true)
+					os.WriteFile("/tmp/leak_stacks.txt", buf[:n], 0o644)
+				}
+			}
 		}
 		c.Cov["explanation"] = "debug"
 	}})
